@@ -268,6 +268,10 @@ class Exec:
 
     # -- expressions
     def expr(self, e):
+        if not isinstance(e, (ast.Constant, ast.Name)):
+            src0 = ast.unparse(e)
+            if src0 in self.overrides and not isinstance(e, ast.Call):
+                return self.overrides[src0]
         if isinstance(e, ast.Constant):
             if e.value is None:
                 return NoneV()
@@ -332,6 +336,10 @@ class Exec:
                 return v.items[e.slice.value]
             if isinstance(v, Obj) and v.cls == "__shape__":
                 return Opaque("shape-index")
+            if isinstance(v, N) and (is_vec(v) or v.shape == "XV"):
+                ix = self.expr(e.slice)
+                if isinstance(ix, N) and ix.shape == "I":
+                    return N("select", (v, ix), v.shape)
             raise Untranslatable("subscript", e)
         raise Untranslatable(f"expression {type(e).__name__}", e)
 
@@ -348,10 +356,12 @@ class Exec:
         if isinstance(base, Obj):
             if base.cls == "__shape__":
                 return Opaque("shape")
-            if e.attr in base.attrs:
-                return base.attrs[e.attr]
             if e.attr == "xp":
                 return ModV("xp")
+            if e.attr == "__class__":
+                return ("class", base.cls)
+            if e.attr in base.attrs:
+                return base.attrs[e.attr]
             if e.attr == "shape":
                 return Obj("__shape__")
             # method?
@@ -422,8 +432,14 @@ class Exec:
 
     def call(self, e):
         src = ast.unparse(e.func)
+        whole = ast.unparse(e)
+        if whole in self.overrides:
+            return self.overrides[whole]
         if src in self.overrides:
-            return self.overrides[src]
+            ov = self.overrides[src]
+            if isinstance(ov, Abs):
+                return self.abstract_call(ov, [self.expr(a) for a in e.args], e)
+            return ov
         f = self.expr(e.func)
         args = e.args
         if isinstance(f, Abs):
@@ -435,7 +451,7 @@ class Exec:
                     v = self.expr(args[0])
                     if isinstance(v, Obj) and "x" in v.attrs:
                         v = v.attrs["x"]
-                    if isinstance(v, N) and (is_vec(v) or v.shape == "XV"):
+                    if isinstance(v, N) and (is_vec(v) or v.shape in ("XV", "ZV")):
                         return N("red", (v,), "S", "len")
                     raise Untranslatable("len of non-vector", e)
                 if f[1] in ("float", "int"):
@@ -460,9 +476,9 @@ class Exec:
     def abstract_call(self, f, argv, e):
         a = argv[0] if argv else None
         if isinstance(a, Obj):           # user callable applied to a samples object
-            self.events.append((f.name, dict((k, self.summ(v)) for k, v in a.attrs.items()
-                                             if k in ("x", "log_prior", "log_likelihood", "log_q"))))
             x = a.attrs.get("x")
+            lp = a.attrs.get("log_prior")
+            self.events.append((f.name, x, lp if isinstance(lp, N) else None))
             if not isinstance(x, N):
                 raise Untranslatable("abstract call on object without coordinates", e)
             if x.shape == "X":
@@ -471,15 +487,16 @@ class Exec:
                 return N("appmap", (x,), "V", f.name)
             raise Untranslatable("abstract call on non-point", e)
         if isinstance(a, N):
-            self.events.append((f.name, self.summ(a)))
             if f.shape == "elem":        # elementwise special function (erf, erfinv)
                 return N("un", (a,), a.shape, f.name)
-            if f.shape == "pair":        # returns (point, scalar): transform inverse
-                return Tup([N("app", (a,), "X" if a.shape in ("X", "S", "V") else "XV", f.name + "_pt"),
-                            N("app", (a,), "S" if a.shape in ("X", "S", "V") else "V", f.name + "_lj")])
+            if f.shape == "pair":        # returns (points, log-Jacobians): transform inverse / forward
+                if a.shape in ("XV", "ZV"):
+                    return Tup([N("appmap", (a,), "XV", f.name + "_pt"), N("appmap", (a,), "V", f.name + "_lj")])
+                return Tup([N("app", (a,), "X", f.name + "_pt"), N("app", (a,), "S", f.name + "_lj")])
+            self.events.append((f.name, a, None))
             if a.shape == "X":
                 return N("app", (a,), "S", f.name)
-            if a.shape == "XV":
+            if a.shape in ("XV", "ZV"):
                 return N("appmap", (a,), "V", f.name)
             return N("app", (a,), "S", f.name)
         raise Untranslatable("abstract call argument", e)
@@ -512,7 +529,7 @@ class Exec:
             return self.binop(ast.Div(), self.expr(a[0]), self.expr(a[1]), e)
         if name in ("ones", "zeros"):
             return num(1 if name == "ones" else 0)      # per-row convention (see module docstring)
-        if name in ("asarray", "atleast_1d", "atleast_2d", "array", "copy"):
+        if name in ("asarray", "atleast_1d", "atleast_2d", "array", "copy", "to_device"):
             return self.expr(a[0])
         if name == "isnan":
             v = self.num_of(self.expr(a[0]), e)
@@ -618,9 +635,19 @@ class Exec:
                 raise Untranslatable(f"unknown field {k} for {cls}", e)
             attrs[k] = self.expr(v)
         given = [k for k in ("log_likelihood", "log_prior", "log_q") if not isinstance(attrs.get(k), NoneV)]
-        if cls == "Samples" and len(given) == 3:
-            raise Untranslatable("constructor that triggers compute_weights", e)
-        return Obj(cls, attrs)
+        obj = Obj(cls, attrs)
+        if cls == "Samples":
+            # Samples.__post_init__: weights are computed when all three densities are present
+            if len(given) == 3:
+                sub = Exec(self.tr, "samples", "Samples", "compute_weights", self.env_globals(), self.overrides, obj)
+                sub.lets, sub.events, sub.guards, sub.assumed = self.lets, self.events, self.guards, self.assumed
+                sub.current_cls = "Samples"
+                m = self.tr.find_method("samples", "Samples", "compute_weights")
+                sub.run(m[1].body)
+            else:
+                for k in ("log_w", "weights", "evidence", "evidence_error", "effective_sample_size"):
+                    obj.attrs[k] = NoneV()
+        return obj
 
 
 # attribute access `super().__init__` support
@@ -658,7 +685,7 @@ XTABLE = {
     "add": "xadd", "sub": "xsub", "mul": "xmul", "div": "xdiv", "mod": None, "powr": None,
     "min": None, "max": None,
     "neg": "xneg", "exp": "xexp", "ln": "xln", "log1p": None, "sqrt": None, "abs": None,
-    "sum": "xvsum", "max_red": None, "mean": None, "var": None, "std": None, "len": None,
+    "sum": "xvsum", "max_red": None, "mean": None, "var": None, "std": None, "len": "xvlen",
     "lt": "xltb", "le": "xleb", "gt": "xgtb", "ge": "xgeb", "eq": "xeqb", "ne": "xneqb",
     "num": lambda fr: "(Fin %s)" % rnum(fr), "pi": "(Fin PI)", "clip": None, "powi": None, "T": "XR",
     "isnan": "xisnan", "isfinite": "xisfinite", "inf": "PInf", "nan": "NaN", "where": "xwhere",
@@ -752,6 +779,10 @@ def coq_print(n: N, T) -> str:
         return f"({f} {P(m)} {P(y)} {P(x)})"
     if op == "anyb":
         return f"(existsb (fun b_ => b_) {P(n.args[0])})"
+    if op == "select":
+        v, ix = n.args
+        d = "dX" if v.shape == "XV" else T["num"](Fraction(0))
+        return f"(select {P(ix)} {P(v)} {d})"
     raise Untranslatable("cannot print IR op " + op)
 
 
@@ -778,7 +809,8 @@ def exp_args(n: N, acc):
         exp_args(a, acc)
 
 
-COQ_TYPES = {"S": "{T}", "V": "list {T}", "B": "bool", "BV": "list bool", "X": "X", "XV": "list X"}
+COQ_TYPES = {"S": "{T}", "V": "list {T}", "B": "bool", "BV": "list bool", "X": "X", "XV": "list X", "ZV": "list Z",
+             "I": "list nat"}
 
 
 class Translator:
@@ -803,7 +835,7 @@ class Translator:
     # class lookup across the modules we know
     CLASS_HOME = {"BaseSamples": "samples", "Samples": "samples", "SMCSamples": "samples",
                   "BaseTransform": "transforms", "Sampler": "samplers.base", "MCMCSampler": "samplers.mcmc",
-                  "SMCSampler": "samplers.smc.base"}
+                  "SMCSampler": "samplers.smc.base", "NumpySMCSampler": "samplers.smc.base"}
 
     def class_node(self, module, cls):
         c = self.classes(module).get(cls)
@@ -915,6 +947,8 @@ class Translator:
                 v = ex.returned
             elif osrc.startswith("return["):
                 v = ex.returned.items[int(osrc[7:-1])]
+            elif osrc.startswith("return."):
+                v = ex.returned.attrs.get(osrc[7:]) if isinstance(ex.returned, Obj) else None
             elif osrc.startswith("self."):
                 v = self_obj.attrs.get(osrc[5:])
             else:
@@ -925,28 +959,38 @@ class Translator:
         return ex, outs
 
 
-def emit_defs(prefix, inputs, ex, outs, T):
+def needed_lets(ex, nodes):
+    """Program-order lets the given nodes depend on (later lets shadow earlier ones of the same name)."""
+    lets = list(ex.lets)
+    needed = []
+    want = set()
+    for v in nodes:
+        want |= free_vars(v)
+    for i in range(len(lets) - 1, -1, -1):
+        nm, val = lets[i]
+        if nm in want:
+            needed.append((nm, val))
+            want.discard(nm)
+            want |= free_vars(val)
+    needed.reverse()
+    return needed
+
+
+def arg_text(inputs, tname, section_types=False):
+    args = " ".join(f"({n} : {COQ_TYPES[s].format(T=tname)})" for n, s in inputs)
+    if not section_types and any(s in ("X", "XV") for _, s in inputs):
+        args = "{X : Type} " + args
+    return args
+
+
+def emit_defs(prefix, inputs, ex, outs, T, section_types=False):
     """Print one Definition per output: all program-order lets it depends on, then the result."""
     tname = T["T"]
     lines = []
     irjson = {}
     for oname, v in outs.items():
-        # dependency pruning over the let list (later lets shadow earlier ones of the same name)
-        lets = list(ex.lets)
-        needed = []
-        want = set(free_vars(v))
-        for i in range(len(lets) - 1, -1, -1):
-            nm, val = lets[i]
-            if nm in want:
-                needed.append((nm, val))
-                want.discard(nm)
-                want |= free_vars(val)
-        needed.reverse()
-        # NB: shadowing: a let that is needed only *before* a same-named later let is handled because we
-        # walk backwards and re-add the name when an earlier use needs it.
-        args = " ".join(f"({n} : {COQ_TYPES[s].format(T=tname)})" for n, s in inputs)
-        if any(s in ("X", "XV") for _, s in inputs):
-            args = "{X : Type} " + args
+        needed = needed_lets(ex, [v])
+        args = arg_text(inputs, tname, section_types)
         body = ""
         for nm, val in needed:
             body += f"  let {nm} := {coq_print(val, T)} in\n"
@@ -971,6 +1015,41 @@ def emit_defs(prefix, inputs, ex, outs, T):
             body2 += "  " + " ++ ".join(parts)
             lines.append(f"Definition {name}_expargs {args} : list {tname} :=\n{body2}.\n")
     return "\n".join(lines), irjson
+
+
+CALL_CTOR = {"L": "ULik", "Pi": "UPrior", "Q": "UFlow"}
+
+
+def emit_calls(prefix, inputs, ex, T, section_types=True):
+    """The user-callable / proposal-density invocations of the target, in program order, with the
+    coordinates handed over and (for the likelihood) the log-prior attached to the samples object at that moment."""
+    tname = T["T"]
+    nodes = []
+    for name, x, lp in ex.events:
+        nodes.append(x)
+        if lp is not None:
+            nodes.append(lp)
+    needed = needed_lets(ex, nodes)
+    body = ""
+    for nm, val in needed:
+        body += f"  let {nm} := {coq_print(val, T)} in\n"
+    items = []
+    for name, x, lp in ex.events:
+        ctor = CALL_CTOR.get(name)
+        if ctor is None:
+            raise Untranslatable("abstract call to %s has no event constructor" % name)
+        pts = coq_print(x, T) if x.shape in ("XV", "ZV") else f"[{coq_print(x, T)}]"
+        if ctor == "ULik":
+            if lp is None:
+                att = "None"
+            else:
+                att = f"(Some {coq_print(lp, T)})" if is_vec(lp) else f"(Some [{coq_print(lp, T)}])"
+            items.append(f"ULik {pts} {att}")
+        else:
+            items.append(f"{ctor} {pts}")
+    body += "  [" + "; ".join(items) + "]"
+    args = arg_text(inputs, tname, section_types)
+    return f"Definition {prefix}_calls {args} : list (ucall X) :=\n{body}.\n"
 
 
 # ----------------------------------------------------------------------------- numeric evaluation of the IR (mpmath)
